@@ -338,12 +338,17 @@ def judge_elementwise(c, x, y1):
     out = []
     if len(y1) != n:
         return [('length', 'returned %d entries for %d' % (len(y1), n))], kind
+    # impose_bounds says nothing about negative positions (its index is matched against the
+    # non-negative positions found out of bounds): such an entry may be bounded or left alone
+    lenient = c['fam'] == 'bounds' and kind.startswith('negative')
     for i in range(n):
         a, y = x[i], y1[i]
         r = rules.get(i)
         if r is None:
             if not same(a, y):
                 out.append(('selectivity', 'entry %d is not addressed but changed %r -> %r' % (i, a, y)))
+        elif lenient and same(a, y):
+            pass
         elif r.conforms(a):
             if not (a == y):
                 out.append(('conforming_entry_changed', 'entry %d = %r is already in the target set but became %r' % (i, a, y)))
@@ -420,6 +425,14 @@ def judge_impose_as(c, x, y1):
         if i not in touched and not same(x[i], y1[i]):
             out.append(('selectivity', 'entry %d is in no pair but changed %r -> %r' % (i, x[i], y1[i])))
     satisfiable = (not off) or _potential(live) is not None
+    # out-of-range indices: the docstring examples show them tolerated as trailing *tracking* entries
+    # (the second member of exactly one pair); an out-of-range source, or one that links in-range
+    # entries, is outside what the docstring defines: selectivity only, counted as 'oor_not_a_leaf'
+    oor = set(i for p in pairs for i in p if not 0 <= i < n)
+    for i in oor:
+        uses = [(a, b) for a, b in pairs if i in (a, b)]
+        if len(uses) != 1 or uses[0][1] != i:
+            return out, 'pairs_oor_not_a_leaf', False
     if satisfiable:
         for a, b in live:
             if not (y1[b] == y1[a] + off):
@@ -741,7 +754,7 @@ def evaluate(c, x, arr, o, drew_float=False):
         if must and not V:
             V.append(('membership', 'no sequence of pairwise-distinct allowed values exists for this input but %r was returned' % (o['y1'],), {}))
         changed = not all(p == q for p, q in zip(xx, o['y1']))
-        if f == 'unique' and not V:
+        if f == 'unique' and not V and not notes:      # a float draw that collided (probability zero) leaves a duplicate: t(t(x)) is not asked
             if o['e2']:
                 V.append(('fixed_point_raised', 't(x) = %r, t(t(x)) raised %s: %s' % (o['y1'], o['e2'][1], o['e2'][2]), {'error': o['e2'][1]}))
             elif not (len(o['y2']) == len(o['y1']) and all(p == q for p, q in zip(o['y1'], o['y2']))):
@@ -774,7 +787,7 @@ def evaluate(c, x, arr, o, drew_float=False):
         vs, kind, sat = judge_impose_as(c, x, y1)
         fixed = sat
         if not sat:
-            outcome = 'unsatisfiable_mask'
+            outcome = 'oor_not_a_leaf' if kind == 'pairs_oor_not_a_leaf' else 'unsatisfiable_mask'
     elif f == 'synchronized':
         vs, kind = judge_synchronized(c, x, y1)
     elif f == 'stat':
@@ -946,6 +959,53 @@ def weight(c):
     return w
 
 
+def cyclic_mask(mask):
+    """does the 'entry i tracks entry j' relation of an impose_as mask contain a directed cycle?"""
+    nxt = {}
+    for i, j in mask:
+        nxt.setdefault(i, set()).add(j)
+    state = {}
+
+    def visit(v):
+        if state.get(v) == 1:
+            return True
+        if state.get(v) == 2:
+            return False
+        state[v] = 1
+        for w in nxt.get(v, ()):
+            if visit(w):
+                return True
+        state[v] = 2
+        return False
+    return any(visit(v) for v in list(nxt))
+
+
+class _Alarm(Exception):
+    pass
+
+
+def returns_in_time(c, x, seconds=0.5):
+    """apply the transform once under an interval timer: True if it returned (or raised), False if it was still running"""
+    import signal
+
+    def ring(signum, frame):
+        raise _Alarm()
+    t = build(c)
+    old = signal.signal(signal.SIGALRM, ring)
+    signal.setitimer(signal.ITIMER_REAL, seconds)
+    try:
+        try:
+            t(list(x))
+        except _Alarm:
+            return False
+        except Exception:
+            return True
+        return True
+    finally:
+        signal.setitimer(signal.ITIMER_REAL, 0)
+        signal.signal(signal.SIGALRM, old)
+
+
 # ------------------------------------------------------------------ shard
 def shard(item):
     cfgs, chunk, nchunks, thorough = item
@@ -957,6 +1017,18 @@ def shard(item):
         for c in cfgs:
             f = c['fam']
             ckey = json.dumps(c, sort_keys=True)
+            if f == 'impose_as' and cyclic_mask(c['mask']):
+                # a mask in which an entry (transitively) tracks itself: only "does it return" is asked, on one input
+                x = inputs_for(c, thorough)[0]
+                ok = returns_in_time(c, x)
+                T.count('traces'); T.count('transitions')
+                T.hist('outcome:impose_as', 'cyclic_mask:' + ('returned' if ok else 'never_returns'))
+                states.add((ckey, False, x, 'cyclic', repr(ok)))
+                if not ok:
+                    T.violate({'family': f, 'clause': 'does_not_return', 'mask_class': 'cyclic'},
+                              {'cfg': c, 'x': x, 'array': False, 'choices': []},
+                              '%s(list %r) was still running after 0.5 s (the offset loop never ends for a cyclic mask)' % (describe(c), list(x)))
+                continue
             xs = inputs_for(c, thorough)[chunk::nchunks]
             containers = (False,) if f == 'connected' else (False, True)
             randomised = f in RANDOM_FAMS
